@@ -310,6 +310,25 @@ class ToParquetBarrier(Expr):
             return {(self._name, 0): (lambda x: None, self.frame.__dask_keys__())}
 
 
+def _find_read_parquet(expr):
+    """All ``ReadParquet`` expressions ``expr`` depends on, including the ones
+    that an already optimized expression no longer reports as dependencies
+    (``FusedIO._expr``, ``Fused.exprs``)"""
+    stack, seen = [expr], set()
+    while stack:
+        node = stack.pop()
+        if node._name in seen:
+            continue
+        seen.add(node._name)
+        if isinstance(node, ReadParquet):
+            yield node
+        for operand in node.operands:
+            if isinstance(operand, Expr):
+                stack.append(operand)
+            elif isinstance(operand, list):
+                stack.extend(op for op in operand if isinstance(op, Expr))
+
+
 def to_parquet(
     df,
     path,
@@ -373,14 +392,20 @@ def to_parquet(
             # Check for any previous parquet ops reading from a file in the
             # output directory, since deleting those files now would result in
             # errors or incorrect results.
-            for read_op in df.expr.find_operations(ReadParquet):
-                read_path_with_slash = str(read_op.path).rstrip("/") + "/"
-                write_path_with_slash = path.rstrip("/") + "/"
-                if read_path_with_slash.startswith(write_path_with_slash):
-                    raise ValueError(
-                        "Cannot overwrite a path that you are reading "
-                        "from in the same task graph."
-                    )
+            write_path_with_slash = path.rstrip("/") + "/"
+            for read_op in _find_read_parquet(df.expr):
+                read_paths = read_op.path
+                if not isinstance(read_paths, (list, tuple)):
+                    read_paths = [read_paths]
+                for read_path in read_paths:
+                    # Normalize like the output path (protocol, relative path)
+                    read_path = fs._strip_protocol(str(read_path))
+                    read_path_with_slash = read_path.rstrip("/") + "/"
+                    if read_path_with_slash.startswith(write_path_with_slash):
+                        raise ValueError(
+                            "Cannot overwrite a path that you are reading "
+                            "from in the same task graph."
+                        )
 
             # Don't remove the directory if it's the current working directory
             if _is_local_fs(fs):
